@@ -364,6 +364,23 @@ pub fn recursion_programs(out: &mut Vec<(String, Program)>) {
         ("elif-value", vec![Stmt::Expr(add(Expr::If(vec![(bin(BinOp::Gt, var("n"), int(2)), vec![Stmt::Expr(h())]), (bin(BinOp::Gt, var("n"), int(1)), vec![Stmt::Expr(int(6))])], Some(vec![Stmt::Expr(int(7))])), r()))]),
         ("loop-local-held", vec![def("i", int(0)), def("acc", int(0)), Stmt::Loop(Some(bin(BinOp::Lt, var("i"), int(2))), vec![def("hh", add(h(), var("i"))), op_assign("acc", BinOp::Add, add(var("hh"), r())), op_assign("i", BinOp::Add, int(1))]), Stmt::Expr(var("acc"))]),
         ("variable-read-then-mutating-call", vec![def("x", h()), cdef("bumpx", lam(vec![], RetAnn::Ty(Ty::Int), vec![op_assign("x", BinOp::Add, int(1)), Stmt::Expr(r())])), Stmt::Expr(add(var("x"), callv("bumpx", vec![])))]),
+        ("callee-variable-reassigned-by-its-argument", vec![
+            def("fv", lam(vec![("q", Some(Ty::Int))], RetAnn::Ty(Ty::Int), vec![Stmt::Expr(mul(var("q"), int(10)))])),
+            cdef("swap", lam(vec![], RetAnn::Ty(Ty::Int), vec![assign("fv", lam(vec![("q", Some(Ty::Int))], RetAnn::Ty(Ty::Int), vec![Stmt::Expr(mul(var("q"), int(1000)))])), Stmt::Expr(r())])),
+            def("first", callv("fv", vec![callv("swap", vec![])])),
+            Stmt::Expr(add(var("first"), callv("fv", vec![int(1)]))),
+        ]),
+        ("callee-variable-reassigned-by-second-argument", vec![
+            def("fv", lam(vec![("p", Some(Ty::Int)), ("q", Some(Ty::Int))], RetAnn::Ty(Ty::Int), vec![Stmt::Expr(add(var("p"), mul(var("q"), int(10))))])),
+            cdef("swap", lam(vec![], RetAnn::Ty(Ty::Int), vec![assign("fv", lam(vec![("p", Some(Ty::Int)), ("q", Some(Ty::Int))], RetAnn::Ty(Ty::Int), vec![Stmt::Expr(add(var("p"), mul(var("q"), int(1000))))])), Stmt::Expr(r())])),
+            Stmt::Expr(callv("fv", vec![h(), callv("swap", vec![])])),
+        ]),
+        ("callee-global-reassigned-by-its-argument", vec![
+            cdef("swap", lam(vec![], RetAnn::Ty(Ty::Int), vec![assign("gfn", lam(vec![("q", Some(Ty::Int))], RetAnn::Ty(Ty::Int), vec![Stmt::Expr(add(var("q"), int(7)))])), Stmt::Expr(r())])),
+            def("first", callv("gfn", vec![callv("swap", vec![])])),
+            assign("gfn", lam(vec![("q", Some(Ty::Int))], RetAnn::Ty(Ty::Int), vec![Stmt::Expr(mul(var("q"), int(3)))])),
+            Stmt::Expr(var("first")),
+        ]),
         ("early-ret-in-loop", vec![def("i", int(0)), Stmt::Loop(None, vec![op_assign("i", BinOp::Add, int(1)), if_s(bin(BinOp::Gt, var("i"), int(1)), vec![Stmt::Ret(Some(add(h(), r())))])]), Stmt::Expr(int(0))]),
     ];
     for (name, body) in bodies {
@@ -379,6 +396,7 @@ pub fn recursion_programs(out: &mut Vec<(String, Program)>) {
                     blob_p(),
                     enum_e(),
                     Top::Def { name: "g".into(), mutable: true, ty: None, value: int(0) },
+                    Top::Def { name: "gfn".into(), mutable: true, ty: None, value: lam(vec![("q", Some(Ty::Int))], RetAnn::Ty(Ty::Int), vec![Stmt::Expr(mul(var("q"), int(2)))]) },
                     sum2.clone(),
                     apply.clone(),
                     top_fn("rec", vec![("n", Some(Ty::Int))], RetAnn::Ty(Ty::Int), b),
